@@ -2,11 +2,7 @@
 //! A panic inside an extern "C" function aborts the process, so the checks run in a worker
 //! subprocess; an abnormal worker exit is reported by the parent.
 
-mod abi;
-mod c08l;
-mod c13l;
-mod c14;
-mod c19;
+use vh_loader::{c08l, c13l, c14, c19};
 
 use std::process::Command;
 use vh::runner::{install_panic_hook, start_watchdog, Env, Tier, VERIF};
